@@ -319,16 +319,26 @@ def gen_files(ctx, hbin, scratch, rng, quick):
     g('opl3', 'opl', 16, 100, 'wnrn')         # not sorted by type
     g('xml1', 'xml', nobj, 100, 'nwrc')
     g('xml2', 'xml', 14, 100, 'rwn')
+    # upper-case letter: the first object of that section is larger than the hooked 256-byte initial
+    # buffer, so the parser's buffer must grow while nothing is committed yet (seed C05-1)
+    g('opl5', 'opl', 9, 100, 'Wnr')
+    g('xml4', 'xml', 9, 100, 'Rwn')
     if not quick:
         g('opl4', 'opl', 60, 100, 'nwrc')
         g('xml3', 'xml', 60, 100, 'nwrc')
     # PBF: several small files, concatenated block-wise below
-    pbf_parts = {'pbfA': [], 'pbfB': [], 'pbfC': [], 'pbfD': []}
+    pbf_parts = {'pbfA': [], 'pbfB': [], 'pbfC': [], 'pbfD': [], 'pbfE': []}
     # blocks with many objects of one type: the decoder's 256-byte buffer nests several times per block
     g('pD0', 'pbf', 12, 100, 'n', 'pbf_dense_nodes=false')
     g('pD1', 'pbf', 10, 300, 'w')
     g('pD2', 'pbf', 9, 500, 'r', 'pbf_compression=none')
     pbf_parts['pbfD'] = ['pD0', 'pD1', 'pD2']
+    # blocks whose FIRST object is larger than the decoder's (hooked) initial buffer, followed by more blocks
+    g('pE0', 'pbf', 6, 100, 'N', 'pbf_dense_nodes=false')
+    g('pE1', 'pbf', 6, 300, 'W')
+    g('pE2', 'pbf', 6, 500, 'R', 'pbf_compression=none')
+    g('pE3', 'pbf', 5, 700, 'n')
+    pbf_parts['pbfE'] = ['pE0', 'pE1', 'pE2', 'pE3']
     for i in range(4):
         g('pA%d' % i, 'pbf', 7, 100 + 100 * i, 'nwr')
         pbf_parts['pbfA'].append('pA%d' % i)
